@@ -19,8 +19,11 @@ int valid_override (string file, string efun_name) { return 1; }
 
 int hc_nop () { return 0; }
 
+// sprintf ("%O", ob) applies this through safe_apply_master_ob: a generated program that defines safe_body ()
+// gets it called here, i.e. inside a safe apply made by an efun
 string object_name (object ob) {
   if (object_name_mode == 1) while (1) ;
+  if (ob && function_exists ("safe_body", ob)) ob->safe_body ();
   return "obj";
 }
 
